@@ -121,6 +121,19 @@ VARIANTS = [
      "new": ("                if orig_flow is not None:\n"
              "                    mitmproxy.ctx.master.commands.call(\"view.flows.resolve\", [orig_flow])\n"
              "                    orig_flow.resume()\n")},
+    {"name": "R3 guard variable bound only after set_state succeeded", "file": PROXY, "expect": "C15.R3",
+     "old": "                    orig_flow = self.flows[flow_id]\n                    orig_flow.set_state(flow_state)\n",
+     "new": "                    found = self.flows[flow_id]\n                    found.set_state(flow_state)\n"
+            "                    orig_flow = found\n"},
+    {"name": "P R3 look-up through a local, bound before set_state", "file": PROXY, "expect": "silent",
+     "old": "                    orig_flow = self.flows[flow_id]\n                    orig_flow.set_state(flow_state)\n",
+     "new": "                    found = self.flows[flow_id]\n                    orig_flow = found\n"
+            "                    found.set_state(flow_state)\n"},
+    {"name": "P R3 preempt look-up bound inside the presence test", "file": PROXY, "expect": "silent",
+     "old": "                    orig_flow = self.flows.get(flow_id)\n                    if orig_flow:\n"
+            "                        orig_flow.intercept()\n",
+     "new": "                    found = self.flows.get(flow_id)\n                    if found:\n"
+            "                        orig_flow = found\n                        orig_flow.intercept()\n"},
     {"name": "P R3 truthiness form of the guard", "file": PROXY, "expect": "silent",
      "old": "                if orig_flow is not None:\n                    orig_flow.resume()\n",
      "new": "                if orig_flow:\n                    orig_flow.resume()\n"},
